@@ -21,6 +21,13 @@ def judge(node, step, tr):
         if 'UNIQUE constraint failed' in msg and \
                 ('unique' in detail or kind == 'ChangeMeta'):
             return []      # the data genuinely conflicts with the new rule
+        if 'UNIQUE constraint failed' in msg and kind == 'ChangeField' and \
+                'null' in detail:
+            f = S.get_field(S.get_model(tr.spec_after, step[0], step[1][1])
+                            or {'fields': []}, step[1][2])
+            if f is not None and f['attrs'].get('unique'):
+                return []  # one initial value for every NULL of a unique
+                           # column: the data cannot satisfy the new rule
         if 'CHECK constraint failed' in msg and kind == 'ChangeMeta':
             return []      # likewise: existing rows violate the new CHECK
         if 'constraint failed' not in msg:
